@@ -131,6 +131,40 @@ def venueOp (op : String) (a : List Int) : Option String :=
   | "ig.dswb", [cum, _d, p] => some (swbOut (Mfi.Integr.driftAdjustI128 cum p))
   | _, _ => none
 
+/-- `ig.v4 <venue 0 kamino | 1 solend | 2 drift> <kind 1 pyth | 2 switchboard> <x y z> p conf ema emaConf maxConf`
+    (x y z = total liquidity bits, collateral supply, decimals for Kamino / Solend; cumulative interest, 0, 0 for Drift):
+    the venue-adjusted feed as the pricing functions see it, through all four read-outs that the risk engine and the
+    liquidation code use: real-time unbiased, real-time low, time-weighted unbiased, time-weighted high.
+    `none` = the adapter itself fails (an adjustment overflows). -/
+def venueV4Op (op : String) (a : List Int) : Option String :=
+  match op, a with
+  | "ig.v4", [venue, kind, x, y, z, p, conf, ema, emaConf, mc] =>
+    let ratio : Option (Option Int) :=
+      if venue = 2 then some none else (Mfi.Integr.scaleSupplies x y z).map fun (ls, cs) => Mfi.Integr.usedRatio ls cs
+    match ratio with
+    | none => some "none"
+    | some r =>
+      let adjI64 (v : Int) : Option Int := if venue = 2 then Mfi.Integr.driftAdjustI64 x v else (match r with | none => some v | some q => Mfi.Integr.adjustI64 v q)
+      let adjU64 (v : Int) : Option Int := if venue = 2 then Mfi.Integr.driftAdjustU64 x v else (match r with | none => some v | some q => Mfi.Integr.adjustU64 v q)
+      let adjI128 (v : Int) : Option Int := if venue = 2 then Mfi.Integr.driftAdjustI128 x v else (match r with | none => some v | some q => Mfi.Integr.adjustI128 v q)
+      let feed : Option Feed :=
+        if kind = 1 then do
+          let p' ← adjI64 p
+          let e' ← adjI64 ema
+          let c' ← adjU64 conf
+          let ec' ← adjU64 emaConf
+          pure (.pyth { price := p', conf := c', emaPrice := e', emaConf := ec', expo := 0 })
+        else do
+          let v' ← adjI128 p
+          let sd' ← adjI128 conf
+          pure (.swb v' sd')
+      match feed with
+      | none => some "none"
+      | some f =>
+        some (String.intercalate " ; " [showResI2 (priceOfType f .realTime none mc), showResI2 (priceOfType f .realTime (some .low) mc),
+                                         showResI2 (priceOfType f .timeWeighted none mc), showResI2 (priceOfType f .timeWeighted (some .high) mc)])
+  | _, _ => none
+
 def liqOp (op : String) (a : List Int) : Option String :=
   match op, a with
   | "liq.amounts", [amt, ap, lp, da, dl] =>
